@@ -434,7 +434,22 @@ def _patterns(repo, rep):
 
 
 # --------------------------------------------------------------------------- C02.e
+def _classify_quote(text):
+    try:
+        v = ast.literal_eval(text)
+    except Exception:
+        return None
+    if v in ("'", b"'"):
+        return 'S'
+    if v in ('"', b'"'):
+        return 'D'
+    return None
+
+
 def _escaping(repo, rep):
+    """semantic check by abstract interpretation: escape_str_for_quote keeps repr's text when repr already used the
+    chosen quote and otherwise un-escapes the other quote, then escapes the chosen one (mirror images for the two
+    quotes); determine_quote_strategy returns the quote that needs no more escapes than the other"""
     m = repo.module('prettyprinter')
     f = m.funcs.get('escape_str_for_quote')
     dq = m.funcs.get('determine_quote_strategy')
@@ -450,84 +465,89 @@ def _escaping(repo, rep):
     rep.check(consts.get('SINGLE_QUOTE_TEXT') == "'" and consts.get('DOUBLE_QUOTE_TEXT') == '"' and
               consts.get('SINGLE_QUOTE_BYTES') == b"'" and consts.get('DOUBLE_QUOTE_BYTES') == b'"', 'C02.e', 'quote-constants', m.relpath,
               'quote constants are the two quote characters', 'quote constants are %s' % consts, nontrivial=True)
-
-    def val(e):
-        if isinstance(e, ast.Constant):
-            return e.value
-        if isinstance(e, ast.Name):
-            return consts.get(e.id)
-        return None
-
-    def chain(e):
-        out = []
-        while isinstance(e, ast.Call) and isinstance(e.func, ast.Attribute) and e.func.attr == 'replace':
-            out.append((val(e.args[0]), val(e.args[1]), len(e.args)))
-            e = e.func.value
-        return list(reversed(out)), src(e)
-    g = Guards(f.node)
-    branches = {}
-    for r in ast.walk(f.node):
-        if isinstance(r, ast.Return) and isinstance(r.value, ast.Call):
-            ch, base = chain(r.value)
-            if not ch:
+    it = S.interp(repo, 'builder', {'_builtin_repr': lambda it_, a, k, nd: SymStr('REPR', nonempty=True),
+                                    'repr': lambda it_, a, k, nd: SymStr('REPR', nonempty=True)})
+    other = {"'": '"', '"': "'"}
+    for q in ("'", '"'):
+        for base in ('str', 'bytes'):
+            try:
+                prs = it.explore(f, [Const(q), ValueV('s', TypeV(base), None)], {})
+            except Undecided as e:
+                rep.undecided('C02.e', 'escape[%s,%s]' % (q, base), f.where, str(e))
                 continue
-            which = None
-            for ff in g.of(r):
-                cp = compare_parts(ff.test, ff.pol)
-                if cp and {src(cp[0]), src(cp[2])} >= {f.params[0]} and cp[1] in ('==', '!='):
-                    other = (set([src(cp[0]), src(cp[2])]) - {f.params[0]})
-                    o = other.pop() if other else None
-                    if o in ('SINGLE_QUOTE_TEXT', 'DOUBLE_QUOTE_TEXT'):
-                        eq = cp[1] == '=='
-                        which = o if eq else ('DOUBLE_QUOTE_TEXT' if o == 'SINGLE_QUOTE_TEXT' else 'SINGLE_QUOTE_TEXT')
-            branches[which] = (ch, base)
-    n += 1
-    okb = set(branches) == {'SINGLE_QUOTE_TEXT', 'DOUBLE_QUOTE_TEXT'}
-    rep.check(okb, 'C02.e', 'escape:two-branches', f.where, 'one re-escaping branch per target quote',
-              're-escaping branches found for %s' % sorted(str(b) for b in branches), nontrivial=True)
-    if okb:
-        swap = {"'": '"', '"': "'"}
-
-        def mirror(s):
-            return ''.join(swap.get(ch, ch) for ch in s) if isinstance(s, str) else s
-        a, base_a = branches['SINGLE_QUOTE_TEXT']
-        b, base_b = branches['DOUBLE_QUOTE_TEXT']
-        n += 1
-        rep.check([(mirror(x), mirror(y), k) for x, y, k in a] == b and base_a == base_b and all(k == 2 for _, _, k in a + b), 'C02.e',
-                  'escape:mirror-symmetry', f.where, 'the two branches are images of each other under swapping the quotes',
-                  'switching to single quotes applies %s, switching to double quotes applies %s: not mirror images - one kind of quote is '
-                  'escaped wrongly' % (a, b), nontrivial=True)
-        n += 1
-        want = [('\\"', '"', 2), ("'", "\\'", 2)]
-        rep.check(a == want, 'C02.e', 'escape:to-single', f.where, 'un-escape the other quote, then escape the chosen one',
-                  'switching to single quotes applies %s, expected %s' % (a, want), nontrivial=True)
-    # same-quote shortcut
-    n += 1
-    same = [r for r in ast.walk(f.node) if isinstance(r, ast.Return) and isinstance(r.value, ast.Name)
-            and any(ff.pol and 'repr_used_quote == %s' % f.params[0] in ff.text.replace('use_quote == repr_used_quote', 'repr_used_quote == use_quote') for ff in g.of(r))]
-    rep.check(len(same) == 1, 'C02.e', 'escape:same-quote-unchanged', f.where, 'repr output kept when it already uses the chosen quote',
-              'the shortcut for "repr already used the chosen quote" is gone')
-    # determine_quote_strategy returns only the two constants, and prefers the quote that needs no escaping
-    gq = Guards(dq.node)
-    for r in ast.walk(dq.node):
-        if isinstance(r, ast.Return) and r.value is not None:
+            rep.count(len(prs))
+            for pr in prs:
+                n += 1
+                lab = 'escape[to %s,%s]{%s}' % ('single' if q == "'" else 'double', base, 'same' if any(v for k, v in pr.facts) else 'other')
+                v = pr.value
+                if pr.raised is not None or not isinstance(v, SymStr):
+                    rep.fail('C02.e', lab, f.where, 'escape_str_for_quote raises / returns %r' % (v,))
+                    continue
+                same = [val for k, val in pr.facts if 'REPR[-1]' in k]
+                if not same:
+                    rep.fail('C02.e', lab, f.where, 'the quote repr() used is not consulted on this path (%s)' % pr.fact_text())
+                    continue
+                o = other[q]
+                want = () if same[0] else (('\\' + o, o, None), (q, '\\' + q, None))
+                okb = v.base.startswith('REPR[') and v.base.endswith(':-1]')
+                rep.check(v.ops == want and okb, 'C02.e', lab, f.where,
+                          'repr text kept when it already uses the chosen quote; otherwise un-escape the other quote, then escape the chosen one',
+                          'for target quote %s (repr used %s quote) the escaped text is %s with replacements %s, expected the text between '
+                          "repr's quotes with replacements %s: some quote characters end up escaped wrongly"
+                          % (q, 'the same' if same[0] else 'the other', v.base, list(v.ops), list(want)), nontrivial=True)
+    # quote choice
+    for base in ('str', 'bytes'):
+        try:
+            prs = it.explore(dq, [ValueV('s', TypeV(base), None)], {})
+        except Undecided as e:
+            rep.undecided('C02.e', 'quote-strategy[%s]' % base, dq.where, str(e))
+            continue
+        rep.count(len(prs))
+        for pr in prs:
             n += 1
-            v = src(r.value)
-            rep.check(v in ('SINGLE_QUOTE_TEXT', 'DOUBLE_QUOTE_TEXT'), 'C02.e', 'quote-strategy:returns:%s@%d' % (v, [x.lineno for x in ast.walk(dq.node) if isinstance(x, ast.Return)].index(r.lineno)),
-                      '%s:%d' % (m.relpath, r.lineno), 'one of the two quote constants', 'determine_quote_strategy returns %s' % v)
-            fs = gq.of(r)
-            if v == 'SINGLE_QUOTE_TEXT':
-                ok = any(ff.pol and ff.text == 'not contains_single' or (not ff.pol) and ff.text == 'contains_single' for ff in fs) or \
-                    any(ff.pol and ff.text.replace(' ', '') in ('single_count<=double_count', 'double_count>=single_count') for ff in fs)
+            has = {}
+            le = {}      # ('S','D') -> bool  meaning count(S) <= count(D) known
+            for k, val in pr.facts:
+                if k.endswith(' in s'):
+                    c = _classify_quote(k[:-5])
+                    if c:
+                        has[c] = val
+                for op in (' <= ', ' < '):
+                    if op in k and 'count(' in k:
+                        l, r = k.split(op, 1)
+                        lc = _classify_quote(l[l.index('count(') + 6:-1]) if 'count(' in l else None
+                        rc = _classify_quote(r[r.index('count(') + 6:-1]) if 'count(' in r else None
+                        if lc and rc and lc != rc:
+                            if op == ' <= ':
+                                # l <= r is val ; if false then r < l hence r <= l
+                                le[(lc, rc)] = val
+                                if not val:
+                                    le[(rc, lc)] = True
+                            else:
+                                if val:
+                                    le[(lc, rc)] = True
+                                else:
+                                    le[(rc, lc)] = True
+            res = pr.value.v if isinstance(pr.value, Const) else None
+            lab = 'quote-strategy[%s]{%s}' % (base, pr.fact_text()[:60])
+            if res not in ("'", '"'):
+                rep.fail('C02.e', lab, dq.where, 'determine_quote_strategy returns %r: only the two quote characters may be chosen' % (pr.value,))
+                continue
+            mine, oth = ('S', 'D') if res == "'" else ('D', 'S')
+            if has.get(mine) is False:
+                ok = True
+            elif has.get(mine) is True and has.get(oth) is False:
+                ok = False
+            elif has.get(mine) is True and has.get(oth) is True:
+                ok = le.get((mine, oth)) is True
             else:
-                ok = any(ff.pol and ff.text == 'not contains_double' or (not ff.pol) and ff.text == 'contains_double' for ff in fs) or \
-                    any((not ff.pol) and ff.text.replace(' ', '') in ('single_count<=double_count',) for ff in fs) or \
-                    any(ff.pol and ff.text.replace(' ', '') in ('single_count>double_count', 'double_count<single_count') for ff in fs)
-            n += 1
-            rep.check(ok, 'C02.e', 'quote-strategy:guard:%s@%d' % (v, [x.lineno for x in ast.walk(dq.node) if isinstance(x, ast.Return)].index(r.lineno)),
-                      '%s:%d' % (m.relpath, r.lineno), 'quote chosen when it is absent from the value, or needs fewer escapes',
-                      'determine_quote_strategy returns %s under %s' % (v, gq.texts(r)), nontrivial=True)
-    rep.floor('C02.e', n, 10)
+                ok = False
+            rep.check(ok, 'C02.e', lab, dq.where, 'the chosen quote is absent from the value or needs no more escapes than the other',
+                      'on the path (%s) determine_quote_strategy chooses %s although that quote %s: more characters get escaped than necessary '
+                      '(and the literal differs from the one the splitter measured)' % (
+                          pr.fact_text()[:160], res, 'occurs in the value while the other does not' if has.get(oth) is False else
+                          'is not known to occur at most as often as the other'), nontrivial=True)
+    rep.floor('C02.e', n, 14)
 
 
 # --------------------------------------------------------------------------- C02.h
